@@ -271,8 +271,9 @@ class EquationSolver(object):
             bad = False
             if abs(lastval-prev) > self.ParameterInitialSteadyStateErrorToler:
                 if abs(lastval) < 1e-4:
-                    if not abs(prev) < 1e-4:
-                        bad = True
+                    # Near zero the relative error means nothing: the absolute test above decides (two small values
+                    # are not equal just because they are small: a ripple between +9e-5 and -9e-5 is not steady).
+                    bad = True
                 else:
                     err = abs(lastval - prev) / abs(lastval)
                     if err > self.ParameterInitialSteadyStateErrorToler:
